@@ -48,7 +48,9 @@ HistClauses(r) == << <<"InstancesShareNoState", r.ok /\ r.exc = "" /\ r.nev >= 3
 (* double) are judged separately: edgeok = the measured pdf is the value of the documented      *)
 (* formula there - its limit from inside: c / alpha-type constant when the exponent of x is 0   *)
 (* (Weibull beta = 1, exponentiated Weibull beta * delta = 1, generalised gamma c * m = 1, gamma *)
-(* a = 1), +inf when it is negative, 0 when it is positive - to 1e-8 relative; edgesame = the    *)
+(* a = 1), +inf when it is negative, 0 when it is positive - to 1e-8 relative                      *)
+(* (where the exponent is 0 in double arithmetic but +-1e-17 for the doubles taken as exact      *)
+(* numbers - 100 * 0.01 - the value for exponent 0 counts as well); edgesame = the                *)
 (* same value, bit for bit, when the parameters are passed explicitly (scalars by keyword and    *)
 (* positionally, arrays with x as a list).  ("x over the support incl. boundary"; an earlier      *)
 (* version accepted 0 there as another version of the density - that hid an exponentiated        *)
